@@ -22,6 +22,13 @@ if [ "$ID" = "C13" ]; then
   (cd "$R" && CGO_ENABLED=1 go build -race -o "$S/c13run" ./zverif/cmd/c13run) 2> "$S/build13.log" || { echo "BUILD-ERROR (race build failed)"; head -30 "$S/build13.log"; exit 2; }
   EXTRA=(-x "racebin=$S/c13run")
 fi
+if [ "$ID" = "C18" ]; then
+  # the real, uninstrumented binary
+  F="$S/full"; mkdir -p "$F"
+  rsync -a --exclude .git --exclude assets --exclude examples --exclude seed --exclude '*_test.go' "$REPO/" "$F/"
+  (cd "$F" && go build -o "$S/grits" .) 2> "$S/build18.log" || { echo "BUILD-ERROR (grits binary)"; head -30 "$S/build18.log"; exit 2; }
+  EXTRA=(-x "gritsbin=$S/grits")
+fi
 if [ "$TIER" = "replay" ]; then
   "$S/vcheck" -id "$ID" -replay "$1" -verif "$VERIF" -repo "$REPO" -scratch "$S"
   exit $?
